@@ -159,6 +159,11 @@ def build():
     RIP = [('Position', 'pos', True), ('Move', 'm', True), ('Square', 'kSq', False), ('U64', 'kingAtks', False), ('Square', 'epSquare', False)]
     if not re.search(r'if \(isInCheck\) \{\s*kingAtks \|= pos\.pieceTypeBB\(pos\.isWhiteMove\(\) \? Piece::BKNIGHT : Piece::WKNIGHT\);\s*for \(int mi = 0; mi < moveList\.size; mi\+\+\) \{\s*const Move& m = moveList\[mi\];\s*bool legal;', ri.body):
         raise ExtractError('pin changed: structure of MoveGen::removeIllegal (first verdict is the in-check loop)')
+    # head of removeIllegal: in-check flag, king square, king rays, en-passant square (up to `if (isInCheck) {`; the statement that adds the
+    # opponent knights to kingAtks in the in-check branch is pinned text, see the structural pin above)
+    U.fragment(MG_C, 'MoveGen_removeIllegal_head', r'\A', r'if \(isInCheck\) \{', within='MoveGen::removeIllegal', within_kw=dict(nparams=2),
+               params=[('Position', 'pos', True), ('bool', 'out_ic', True), ('Square', 'out_ksq', True), ('U64', 'out_atks', True), ('Square', 'out_ep', True)],
+               cls='MoveGen', is_static=True, epilogue='\n    out_ic = isInCheck; out_ksq = kSq; out_atks = kingAtks; out_ep = epSquare;\n')
     U.fragment(MG_C, 'MoveGen_removeIllegal_verdict_ic', r'bool legal;', r'if \(legal\)\s*moveList\[length\+\+\] = m;', start_nth=(0, 2), end_first=True,
                params=RIP, ret='bool', cls='MoveGen', is_static=True, rules=[(PLAY, 'legal = ghost_played_safe;', 1)], epilogue='\n    return legal;\n', within='MoveGen::removeIllegal', within_kw=dict(nparams=2))
     U.fragment(MG_C, 'MoveGen_removeIllegal_verdict_nic', r'bool legal;', r'if \(legal\)\s*moveList\[length\+\+\] = m;', start_nth=(1, 2), end_first=True,
@@ -646,6 +651,12 @@ _RIPRE = [_POS, '__CPROVER_is_fresh(m, sizeof(*m))', 'wf_bb(pos)', 'FLAGS_OK(pos
           'spec_pseudo_legal(pos, m)', 'kSq == spec_king_sq(pos->squares, pos->whiteMove)', 'epSquare == pos->epSquare',
           'ghost_played_safe == spec_leaves_king_safe(pos, m)', 'RI_CASE(pos, m)']
 _RAYS = '(spec_rook_rays(kSq, spec_occ(pos->squares)) | spec_bishop_rays(kSq, spec_occ(pos->squares)))'
+CONTRACTS['MoveGen_removeIllegal_head'] = {
+    'requires': [_POS, 'wf_bb(pos)', 'FLAGS_OK(pos)', 'men_ok(pos)', '__CPROVER_is_fresh(out_ic, sizeof(*out_ic))', '__CPROVER_is_fresh(out_ksq, sizeof(*out_ksq))',
+                 '__CPROVER_is_fresh(out_atks, sizeof(*out_atks))', '__CPROVER_is_fresh(out_ep, sizeof(*out_ep))'],
+    'assigns': ['*out_ic', '*out_ksq', '*out_atks', '*out_ep'],
+    'ensures': ['*out_ic == spec_in_check(pos)', '*out_ksq == spec_king_sq(pos->squares, pos->whiteMove)', '*out_ep == pos->epSquare',
+                '*out_atks == (spec_rook_rays(*out_ksq, spec_occ(pos->squares)) | spec_bishop_rays(*out_ksq, spec_occ(pos->squares)))']}
 CONTRACTS['MoveGen_removeIllegal_verdict_ic'] = {
     # in check: kingAtks = king rays + all opponent knights; a non-king, non-en-passant move to a square outside them can neither capture the checker nor interpose
     'requires': _RIPRE + ['spec_in_check(pos)', 'kingAtks == (%s | (pos->whiteMove ? pos->pieceTypeBB_[Piece_BKNIGHT] : pos->pieceTypeBB_[Piece_WKNIGHT]))' % _RAYS],
@@ -741,6 +752,7 @@ void h_pc_kingpawns_w(void) { struct Position* p; struct MoveList* ml; U64 occ; 
 void h_pc_kingpawns_b(void) { struct Position* p; struct MoveList* ml; U64 occ; havoc_tables(); havoc_gm(); MoveGen_pseudoLegalCaptures_kingpawns_b(p, ml, occ); CANARY_POINT; }
 void h_pc_tiled_w(void) { struct Position* p; struct MoveList* ml; havoc_tables(); havoc_gm(); MoveGen_pseudoLegalCaptures_tiled_w(p, ml); CANARY_POINT; }
 void h_pc_tiled_b(void) { struct Position* p; struct MoveList* ml; havoc_tables(); havoc_gm(); MoveGen_pseudoLegalCaptures_tiled_b(p, ml); CANARY_POINT; }
+void h_ri_head(void) { struct Position* p; _Bool* a; int* b; U64* c; int* d; havoc_tables(); MoveGen_removeIllegal_head(p, a, b, c, d); CANARY_POINT; }
 void h_ri_ic(void) { struct Position* p; struct Move* m; int k, e; U64 a; havoc_tables(); ghost_played_safe = (nondet_int() != 0); MoveGen_removeIllegal_verdict_ic(p, m, k, a, e); CANARY_POINT; }
 void h_ri_nic(void) { struct Position* p; struct Move* m; int k, e; U64 a; havoc_tables(); ghost_played_safe = (nondet_int() != 0); MoveGen_removeIllegal_verdict_nic(p, m, k, a, e); CANARY_POINT; }
 void h_cc_head_w(void) { struct Position* p; U64 occ; Square* a; U64 *b, *c, *d; havoc_tables(); MoveGen_capturesAndChecks_head_w(p, occ, a, b, c, d); CANARY_POINT; }
@@ -805,8 +817,9 @@ for _sfx in ('_w', '_b'):
     GROUPS.append(Group('pseudoLegalCaptures_tiled' + _sfx, 'h_pc_tiled' + _sfx, enforce=_pf + 'tiled' + _sfx, defines=('COMPOSE_UF=1',),
                         replace=('Position_occupiedBB', _pf + 'pieces' + _sfx, _pf + 'kingpawns' + _sfx), min_props=5, timeout=3000,
                         note='composition of the two fragment contracts; spec functions uninterpreted (COMPOSE_UF)'))
+GROUPS.append(Group('removeIllegal_head', 'h_ri_head', enforce='MoveGen_removeIllegal_head', replace=_ATT + ('MoveGen_inCheck', 'Position_occupiedBB', 'BitBoard_firstSquare'), min_props=5, timeout=1800))
 for _n in ('ic', 'nic'):
-    GROUPS.append(Group('removeIllegal_verdict_' + _n, 'h_ri_' + _n, enforce='MoveGen_removeIllegal_verdict_' + _n, min_props=5, timeout=3000,
+    GROUPS.append(Group('removeIllegal_verdict_' + _n, 'h_ri_' + _n, enforce='MoveGen_removeIllegal_verdict_' + _n, min_props=5, timeout=7200, tier='thorough',
                         cases=('case', [('CASE_RI=%d' % pt,) for pt in range(6)])))
 for _sfx in ('_w', '_b'):
     _pf = 'MoveGen_capturesAndChecks_'
@@ -848,6 +861,7 @@ for _sfx in ('_w', '_b'):
     CLAIMED += ['pseudoLegalCaptures_%s%s' % (x, _sfx) for x in ('pieces', 'kingpawns', 'tiled')]
     CLAIMED += ['capturesAndChecks_%s%s' % (x, _sfx) for x in ('head', 'sliders', 'king', 'knights', 'pawns', 'tiled')]
     CLAIMED += ['checkEvasions_%s%s' % (x, _sfx) for x in ('head', 'pieces', 'pawns', 'tiled')]   # pieces: thorough tier (15 min each)
+CLAIMED += ['removeIllegal_head', 'removeIllegal_verdict_ic', 'removeIllegal_verdict_nic']   # verdicts: thorough tier (12 cases, 16-60 min each)
 CLAIMED += ['givesCheck']   # givesCheck: thorough tier only (6 cases, 10-36 min each)
 PROPERTIES = {'C01': CLAIMED}
 ASSUMPTIONS = {'C01': [
@@ -857,7 +871,7 @@ ASSUMPTIONS = {'C01': [
     'position domain: bitboards consistent with the board (wf_bb), one king per side, no pawns on the first/last rank, castling rights imply king and rook on their squares, en-passant square as makeMove establishes it',
 ]}
 NOT_DECIDED = {'C01': ['isLegal (verdict == playing the move): contract written, complete 12-way case split; the two king-move cases are discharged (24 and 42 min), the other cases did not finish in 50 min each: not claimed',
-                       'removeIllegal (legality filter with the king-ray shortcut): not under contract; hence "the set treated as legal == the legal moves" is decided only up to the legality filter (pseudo-legal generation and the evasion candidates are exact)',
+                       'removeIllegal: the per-move verdict of both loops is decided in the thorough tier (king-ray shortcut == playing the move; the play-the-move branch is replaced by its specification, its text is pinned); the compaction of the list (moveList[length++] = m) and the knight statement of the in-check branch are pinned text only',
                        'pseudoLegalCapturesAndChecks: decided are "only pseudo-legal moves, none twice, every capture / en-passant capture / queen-or-knight promotion present"; that every CHECKING quiet move is present (direct and discovered checks) is NOT decided',
                        'sliding-attack magic tables, FEN text layer, MoveList capacity']}
 
@@ -884,6 +898,9 @@ MUTANTS = [
     dict(name='cc_pawn_ep_dropped', file='lib/texellib/moveGen.cpp', pattern=r'U64 m = \(pawns << 7\) & BitBoard::maskAToGFiles & \(pos.colorBB\(!wtm\) \| epMask\);', repl='U64 m = (pawns << 7) & BitBoard::maskAToGFiles & pos.colorBB(!wtm);', groups=['capturesAndChecks_pawns_w']),
     dict(name='cc_king_own_capture', file='lib/texellib/moveGen.cpp', pattern=r'm &= \(\(discovered & \(1ULL<<sq\)\) == 0\) \? pos.colorBB\(!wtm\) : ~pos.colorBB\(wtm\);', repl='m &= ((discovered & (1ULL<<sq)) == 0) ? pos.colorBB(!wtm) : ~pos.colorBB(!wtm);', groups=['capturesAndChecks_king_b']),
     dict(name='cc_rook_own_capture', file='lib/texellib/moveGen.cpp', pattern=r'm &= \(pos.colorBB\(!wtm\) \| kRookAtk\);\n        m &= ~pos.colorBB\(wtm\);', repl='m &= (pos.colorBB(!wtm) | kRookAtk);', groups=['capturesAndChecks_sliders_w']),
+    dict(name='removeIllegal_shortcut_wrong_square', file='lib/texellib/moveGen.cpp', pattern=r'if \(\(m.from\(\) != kSq\) && \(\(kingAtks & \(1ULL<<m.to\(\)\)\) == 0\) && \(m.to\(\) != epSquare\)\) \{\n                legal = false;', repl='if ((m.from() != kSq) && ((kingAtks & (1ULL<<m.from())) == 0) && (m.to() != epSquare)) {\n                legal = false;', groups=['removeIllegal_verdict_ic']),
+    dict(name='removeIllegal_ep_not_excluded', file='lib/texellib/moveGen.cpp', pattern=r'if \(\(m.from\(\) != kSq\) && \(\(kingAtks & \(1ULL<<m.from\(\)\)\) == 0\) && \(m.to\(\) != epSquare\)\) \{\n                legal = true;', repl='if ((m.from() != kSq) && ((kingAtks & (1ULL<<m.from())) == 0)) {\n                legal = true;', groups=['removeIllegal_verdict_nic']),
+    dict(name='removeIllegal_head_rook_only', file='lib/texellib/moveGen.cpp', pattern=r'U64 kingAtks = BitBoard::rookAttacks\(kSq, occupied\) \| BitBoard::bishopAttacks\(kSq, occupied\);', repl='U64 kingAtks = BitBoard::rookAttacks(kSq, occupied) | BitBoard::rookAttacks(kSq, occupied);', groups=['removeIllegal_head']),
     dict(name='givesCheck_ep_discovered', file='lib/texellib/moveGen.cpp', pattern=r'                case 9: case 7: case -9: case -7:\n                    if \(nextPiece\(pos, epSq, d3\) == oKing\) \{', repl='                case 9: case 7: case -9:\n                    if (nextPiece(pos, epSq, d3) == oKing) {', groups=['givesCheck']),
     dict(name='givesCheck_castle_rook_file', file='lib/texellib/moveGen.cpp', pattern=r'            if \(nextPieceSafe\(pos, m.from\(\) \+ 1, wtm \? 8 : -8\) == oKing\)', repl='            if (nextPieceSafe(pos, m.from() + 2, wtm ? 8 : -8) == oKing)', groups=['givesCheck']),
     dict(name='givesCheck_pawn_direction', file='lib/texellib/moveGen.cpp', pattern=r'if \(\(\(d1 > 0\) == wtm\) && \(pos.getPiece\(m.to\(\) \+ d1\) == oKing\)\)', repl='if ((pos.getPiece(m.to() + d1) == oKing))', groups=['givesCheck']),
